@@ -18,7 +18,7 @@ Node formats:
   ['red', op, [a...]]          sum prod all any min max
   ['inprod', [a...], [b...]]
   ['pub', op, a(, b)]          is_zero_public / eq_public: awaited at once, value public (await point)
-  ['await', kind, a]           kind in output|gather|sleep: mid-program await on an earlier value
+  ['await', kind, a]           kind in output|gather|sleep|peek: mid-program await on an earlier value
   ['barrier']
   ['coro', a, b]               user-defined @mpc.coroutine helper: (a*b + a) via awaits inside
   ['multi', op, ...]           if_swap(c,a,b) min_max([..]) argmin([..]) argmax([..]) divmod(a,c)
@@ -609,6 +609,8 @@ def make_party_program(nodes, l, receivers=None, on_value=None, collect_shares=F
                     await mpc.output(a)
                 elif nd[1] == 'gather':
                     await mpc.gather(a)
+                elif nd[1] == 'peek':
+                    mpc.peek(a)   # opens a for the log: every party takes part whether or not it logs
                 else:
                     await asyncio.sleep(0)
                 v = None
@@ -837,7 +839,8 @@ def run_int_case(case, collect_shares=False, receivers=None, on_value=None, sim_
     ref_vals = reference(nodes, l)
     sim = simmod.Sim(case['m'], case['t'], prss=case['prss'], seed=case.get('seed', 0),
                      schedule=case.get('sched') or {'mode': 'fast'}, sec_param=sec_param,
-                     no_barrier=case.get('no_barrier', False), cli_threshold=case.get('cli_t'))
+                     no_barrier=case.get('no_barrier', False), cli_threshold=case.get('cli_t'),
+                     no_log=case.get('no_log'))
     try:
         if sim_hook is not None:
             sim_hook(sim)
